@@ -239,6 +239,11 @@ def _same(got, ref):
         err = np.abs(got.astype(np.float64) - ref.astype(np.float64))
     tol = 1e-4 * max(1.0, float(np.nanmax(np.abs(ref))))
     ok = bool(np.all((err <= tol) | (np.isnan(got) & np.isnan(ref)) | ((got == ref))))
+    if ok and got.dtype.kind == "f" and ref.dtype.kind == "f":
+        # exact zeros carry a sign that decides what a later division or comparison gives (2 / (2 - P) where P == 2)
+        z = (got == 0) & (ref == 0)
+        if z.any() and not np.array_equal(np.signbit(got[z]), np.signbit(ref[z])):
+            return False, f"sign of zero differs on {int((np.signbit(got[z]) != np.signbit(ref[z])).sum())} voxels"
     return ok, f"max difference {np.nanmax(err):.3g}"
 
 
